@@ -80,6 +80,15 @@ func scenarios(tier string) (out []scenario) {
 		for _, sz := range sizes(tier) {
 			for _, old := range []bool{true, false} {
 				for _, tmp := range []string{"same", "other"} {
+					if kind != "filter" && sz == 1 {
+						// Same file as size 0: the writer's minimum.
+						continue
+					}
+					if kind == "filter" && sz > 8<<20 && !(old && tmp == "same") {
+						// Bound: a 32 MiB refresh has ~1150 kill points of
+						// several seconds each; one variant is enumerated.
+						continue
+					}
 					if kind == "filter" && sz == 0 && !old {
 						// Nothing is stored when an absent list is refreshed
 						// with an empty one.
@@ -140,6 +149,11 @@ func (r *runner) childArgs(dir string) []string {
 
 // calibrate asks an untraced child for the padding that gives the wanted size.
 func (r *runner) calibrate() (actual int, err error) {
+	if r.sc.Kind == "filter" {
+		// Analytic: see filterBody.
+		r.calib = "-"
+		return max(r.sc.Size, 2), nil
+	}
 	dir, err := r.newDir()
 	if err != nil {
 		return 0, err
@@ -243,12 +257,22 @@ type recording struct {
 	hasV0    bool
 	m        *model
 	dir      string
+	// refKill caches the outcome of the reference kills at markers 1 and 2.
+	refKill map[int]killOutcome
+}
+
+type killOutcome struct {
+	b       []byte
+	present bool
 }
 
 // killAt re-runs the child and kills it on entry to relevant event k of the
 // recording.  It retries when the injected run's call sequence diverges from
 // the recording.  ok is false if every attempt diverged.
 func (r *runner) killAt(rec *recording, k int) (b []byte, present, ok bool, why string, err error) {
+	if o, hit := rec.refKill[k]; hit {
+		return o.b, o.present, true, "", nil
+	}
 	target := rec.rel[k]
 	if !killCalls[target.Name] {
 		return nil, false, false, "", fmt.Errorf("event %d (%s) is not in the kill set", k, target.Name)
@@ -346,6 +370,10 @@ func (r *runner) record() (rec *recording, err error) {
 			return nil, fmt.Errorf("%s: destination absent at marker 2 (the first save returned)", r.sc.id())
 		}
 		rec.versions[j] = b
+		if rec.refKill == nil {
+			rec.refKill = map[int]killOutcome{}
+		}
+		rec.refKill[rec.markers[j]] = killOutcome{b: b, present: present}
 	}
 	if bytes.Equal(rec.versions[1], rec.versions[2]) || (rec.hasV0 && bytes.Equal(rec.versions[0], rec.versions[1])) {
 		return nil, fmt.Errorf("%s: successive versions are equal, the scenario is vacuous", r.sc.id())
@@ -455,10 +483,18 @@ func run(c *lib.Ctx) {
 		c.EngineError("strace is not installed: real kills impossible")
 		return
 	}
+	// Small scenarios are dealt whole to one shard (which records them once);
+	// the kill points of large ones (many calls, slow child) are dealt over
+	// all shards, each of which makes its own recording.
 	idx := 0
 	for si, sc := range scenarios(c.Tier) {
 		if c.Expired() {
 			return
+		}
+		shared := sc.Size >= 1<<20
+		owner := c.Mine(si)
+		if !shared && !owner {
+			continue
 		}
 		r := &runner{c: c, sc: sc, self: self, seq: si * 1000000}
 		actual, err := r.calibrate()
@@ -471,7 +507,6 @@ func run(c *lib.Ctx) {
 			c.EngineError(err.Error())
 			return
 		}
-		owner := c.Mine(si)
 		if owner {
 			c.Count("scenarios", 1)
 			c.Count("recorded_window_calls", int64(rec.markers[2]-rec.markers[0]+1))
@@ -483,38 +518,19 @@ func run(c *lib.Ctx) {
 			c.Sample(map[string]any{"scenario": sc.id(), "window_calls": rec.markers[2] - rec.markers[0] + 1,
 				"bytes": []int{len(rec.versions[0]), len(rec.versions[1]), len(rec.versions[2])}})
 			// (b) power-loss model, once per scenario.
-			rec.m.explore(func(st crashState, ok bool) {
-				c.Count("powerloss_states", 1)
-				c.Distinct("powerloss_classes", sc.Kind+":"+st.Class)
-				if st.R > 0 || st.D < st.OfN {
-					c.Distinct("nontrivial", sc.id()+fmt.Sprintf("#pl%d/%d/%d/%d", st.P, st.R, st.D, st.Torn))
-				}
-				if ok {
-					return
-				}
-				stc := st
-				text := "any complete version written so far, or absence if the file did not exist"
-				cs := caseC{Scenario: sc, Mode: "powerloss", Crash: &stc, Observed: st.Class,
-					Allowed: text, Window: rec.windowCalls(st.P - 1)}
-				if st.P > rec.markers[0] {
-					cs.Call = rec.sigs[st.P-1]
-				}
-				c.Violation("powerloss:"+sc.Kind+":"+st.Class, describe(sc, rec, fmt.Sprintf(
-					"power loss after the first %d calls of the recorded log (last executed: %s), with the last %d namespace operations "+
-						"and all but the first %d of %d unsynced data operations of the destination's file lost (torn bytes of the next write: %d): "+
-						"the destination holds %s = %s; the statement allows only a complete version (%s)",
-					st.P, cs.Call, st.R, st.D, st.OfN, st.Torn, st.Sym, st.Class, text)), cs)
-			})
+			r.explore(rec)
 		}
-		// (a) real kills, dealt over all shards.
+		// (a) real kills.
 		for k := rec.markers[0]; k <= rec.markers[2]; k++ {
 			if !killCalls[rec.rel[k].Name] {
 				continue
 			}
-			mine := c.Mine(idx)
-			idx++
-			if !mine {
-				continue
+			if shared {
+				mine := c.Mine(idx)
+				idx++
+				if !mine {
+					continue
+				}
 			}
 			if c.Expired() {
 				return
@@ -529,6 +545,33 @@ func run(c *lib.Ctx) {
 			}
 		}
 	}
+}
+
+// explore runs the power-loss exploration of one recording.
+func (r *runner) explore(rec *recording) {
+	c, sc := r.c, r.sc
+	rec.m.explore(func(st crashState, ok bool) {
+		c.Count("powerloss_states", 1)
+		c.Distinct("powerloss_classes", sc.Kind+":"+st.Class)
+		if st.R > 0 || st.D < st.OfN {
+			c.Distinct("nontrivial", sc.id()+fmt.Sprintf("#pl%d/%d/%d/%d", st.P, st.R, st.D, st.Torn))
+		}
+		if ok {
+			return
+		}
+		stc := st
+		text := "any complete version written so far, or absence if the file did not exist"
+		cs := caseC{Scenario: sc, Mode: "powerloss", Crash: &stc, Observed: st.Class,
+			Allowed: text, Window: rec.windowCalls(st.P - 1)}
+		if st.P > rec.markers[0] {
+			cs.Call = rec.sigs[st.P-1]
+		}
+		c.Violation("powerloss:"+sc.Kind+":"+st.Class, describe(sc, rec, fmt.Sprintf(
+			"power loss after the first %d calls of the recorded log (last executed: %s), with the last %d namespace operations lost "+
+				"and only the first %d of the %d data operations issued on the destination's file on disk (plus %d torn bytes of the next write): "+
+				"the destination holds %s = %s; the statement allows only a complete version (%s)",
+			st.P, cs.Call, st.R, st.D, st.OfN, st.Torn, st.Sym, st.Class, text)), cs)
+	})
 }
 
 func replay(c *lib.Ctx, raw json.RawMessage) string {
@@ -546,6 +589,9 @@ func replay(c *lib.Ctx, raw json.RawMessage) string {
 		return "engine: " + err.Error()
 	}
 	if cs.Mode == "kill" {
+		if cs.K < rec.markers[0] || cs.K > rec.markers[2] || !killCalls[rec.rel[cs.K].Name] {
+			return "" // the recorded call sequence has changed: no such kill point
+		}
 		v, desc, err := r.checkKill(rec, cs.K, false)
 		if err != nil {
 			return "engine: " + err.Error()
@@ -608,7 +654,9 @@ func main() {
 			"the statement asks for atomicity, not durability: after a power loss any complete version written so far (or absence, if the file did not exist) is accepted; after a SIGKILL only the previous or the new version of the save in progress",
 			"filter lists use lines of up to 60000 bytes so that a 1 MiB / 32 MiB refresh has an enumerable number of write calls (the parser issues one write per rule line)",
 			"files written through a shared writable mapping or io_uring would be invisible; the recording run traces %file,%desc and the check fails as an engine error if any call it cannot interpret touches the working directory",
-			"migration helpers (configmigrate/v1.go, dhcpd/migrate.go) write through the same maybe.WriteFile and are not enumerated separately",
+			"migration helpers (configmigrate/v1.go, dhcpd/migrate.go) and the post-upgrade write in parseConfig go through the same maybe.WriteFile and are not enumerated separately",
+			"real kills run on tmpfs (/dev/shm): what a killed process leaves behind does not depend on the file system; what a power loss leaves behind is covered by the model only",
+			"bounds: two successive saves per scenario (plus the creating save when the file was absent); sizes as listed; at 32 MiB the filter refresh is enumerated for one variant only (file present, temporary file next to it)",
 		},
 	})
 }
